@@ -353,11 +353,13 @@ func runC02(c *mon.Ctx) {
 				c02expectReject(c, env, t, "CheckMultiProof|number:append-honest-opening|"+ncl, "number:append-honest-opening", refSeen, allRef, s)
 			}
 			// (b) splices with a second honest proof
+			var other *c02tuple
 			{
 				s2 := genStatement(env, rng, n, rng.Intn(10), polys)
 				s2.label = s.label
 				if pr2, _, _, err := s2.prove(env); err == nil {
 					t2 := &c02tuple{label: s2.label, Cs: s2.Cs, ys: s2.ys, zs: s2.zs, pr: pr2}
+					other = t2.clone()
 					if !bytes.Equal(t2.encoding(), baseEnc) {
 						t := base.clone()
 						t.pr.D = pr2.D
@@ -381,12 +383,12 @@ func runC02(c *mon.Ctx) {
 			for k := 0; k < 3; k++ {
 				t := base.clone()
 				for i := range t.Cs {
-					*t.Cs[i] = Rerepresent(t.Cs[i], rng.Intn(6), rng)
+					*t.Cs[i] = Rerepresent(t.Cs[i], rng.Intn(NumRepKinds), rng)
 				}
-				t.pr.D = Rerepresent(&t.pr.D, rng.Intn(6), rng)
+				t.pr.D = Rerepresent(&t.pr.D, rng.Intn(NumRepKinds), rng)
 				for j := 0; j < 8; j++ {
-					t.pr.IPA.L[j] = Rerepresent(&t.pr.IPA.L[j], rng.Intn(6), rng)
-					t.pr.IPA.R[j] = Rerepresent(&t.pr.IPA.R[j], rng.Intn(6), rng)
+					t.pr.IPA.L[j] = Rerepresent(&t.pr.IPA.L[j], rng.Intn(NumRepKinds), rng)
+					t.pr.IPA.R[j] = Rerepresent(&t.pr.IPA.R[j], rng.Intn(NumRepKinds), rng)
 				}
 				ok, verr, pv := t.libVerify(env)
 				if pv != nil {
@@ -400,6 +402,28 @@ func runC02(c *mon.Ctx) {
 			}
 			// (d) wrong shapes: (false, error), never a panic
 			c02shapes(c, env, base, rng, ncl)
+			// ... and a failing call must leave nothing behind: an honest tuple of a different statement (other indices and
+			// values) verified right after the error paths must be accepted, and a false statement built from it rejected
+			if other != nil {
+				ok, verr, pv := other.libVerify(env)
+				if pv != nil || verr != nil || !ok {
+					rok, _ := other.refVerify(env, false)
+					c.Count("reference_verifier_decisions", 1)
+					if rok {
+						c.Fail("valid-proof-rejected-after-error-path", fmt.Sprintf("after wrong-shape calls, CheckMultiProof rejects (ok=%v err=%v panic=%v) an honest tuple of another statement that the reference verifier accepts", ok, verr, pv), s.describe())
+					}
+				} else {
+					c.Count("acceptances_expected_and_observed", 1)
+				}
+				c.Eval("CheckMultiProof|honest-other-statement-after-error-paths|"+ncl, true)
+				sh := base.clone()
+				sh.pr.IPA.L = sh.pr.IPA.L[:5]
+				sh.libVerify(env) // error path once more
+				t := other.clone()
+				one := fr.One()
+				t.ys[0].Add(t.ys[0], &one)
+				c02expectReject(c, env, t, "CheckMultiProof|y_i:+1-after-error-path|"+ncl, "y_i:+1-after-error-path", refSeen, allRef, s)
+			}
 			// (e) random well-formed tuple
 			{
 				t := base.clone()
@@ -589,10 +613,10 @@ func c02ipa(c *mon.Ctx, env *Env, pd *polyDef, rng *rand.Rand, pool *Pool) {
 	check("honest", pd.comm, cp(), zf, yf, "c02", true, false)
 	rep := cp()
 	for j := range rep.L {
-		rep.L[j] = Rerepresent(&rep.L[j], rng.Intn(6), rng)
-		rep.R[j] = Rerepresent(&rep.R[j], rng.Intn(6), rng)
+		rep.L[j] = Rerepresent(&rep.L[j], rng.Intn(NumRepKinds), rng)
+		rep.R[j] = Rerepresent(&rep.R[j], rng.Intn(NumRepKinds), rng)
 	}
-	check("re-representation", Rerepresent(&pd.comm, rng.Intn(6), rng), rep, zf, yf, "c02", true, false)
+	check("re-representation", Rerepresent(&pd.comm, rng.Intn(NumRepKinds), rng), rep, zf, yf, "c02", true, false)
 	one := fr.One()
 	var y1, z1 fr.Element
 	y1.Add(&yf, &one)
